@@ -128,8 +128,20 @@ Example C20_nonvacuous_conc :
   run_model (Conc Http false [[true]; [false]; [true]]) = OConc 0 0 [0; 1]%nat.
 Proof. repeat split; vm_compute; reflexivity. Qed.
 
+(* faults: a send that keeps failing from some point on ends the transfer through the internal-error
+   path (the final ERROR send fails as well: the exception leaves the thread, after both with-blocks);
+   a close() of the file that raises still leaves file and socket closed *)
+Example C20_transfer_faults :
+  run_transfer {| sock_ok := true; hres := HFile; tsize_raises := false; xend := XInternal;
+                  send_err_raises := true; close_file_raises := false; with_sock := true; with_file := true |}
+  = [Open RSock; Open RFile; Blocks; LogExc; SendError; Close RFile; Close RSock; ThreadEnd true] /\
+  run_transfer {| sock_ok := true; hres := HFile; tsize_raises := false; xend := XCompleted;
+                  send_err_raises := false; close_file_raises := true; with_sock := true; with_file := true |}
+  = [Open RSock; Open RFile; Blocks; Close RFile; Close RSock; ThreadEnd true].
+Proof. split; vm_compute; reflexivity. Qed.
+
 Example C20_nonvacuous_xfer :
   run_transfer {| sock_ok := true; hres := HFile; tsize_raises := false; xend := XInvalidPacket;
-                  send_err_raises := true; with_sock := true; with_file := true |}
+                  send_err_raises := true; close_file_raises := false; with_sock := true; with_file := true |}
   = [Open RSock; Open RFile; Blocks; LogInfo; SendError; Close RFile; Close RSock; ThreadEnd true].
 Proof. vm_compute. reflexivity. Qed.
